@@ -39,6 +39,8 @@ var zzTargets = []string{
 	2: "# imported\n2021-02-01   \"migros\"\nAssets:Bank   Expenses:TBD   12 CHF\nAssets:Bank Expenses:Rent\t1000 CHF\n\n* heading\n\n2021-02-02 \"café\"\nAssets:Cash Expenses:TBD 4 CHF\n\n// end",
 	3: "2021-02-01 open Assets:Bank\n\n2021-02-01 \"nothing to infer\"\nAssets:Bank Expenses:Food 12 CHF\n",
 	4: "2021-02-01 \"both\"\nExpenses:TBD Expenses:TBD 12 CHF\n",
+	// two placeholder bookings with the same amount; the likely account of the first is the counter-account of the second
+	5: "2021-02-01 \"migros\"\nAssets:Bank Expenses:TBD 80 CHF\nExpenses:Food Expenses:TBD 80 CHF\n",
 }
 
 func zzParseText(text, path string) (syntax.File, error) {
